@@ -128,4 +128,77 @@ def sigma_closure(prog: Program) -> RuleResult:
     return res
 
 
-RULES = {"SIGMA-INVARIANCE": sigma_invariance, "SIGMA-CLOSURE": sigma_closure}
+
+TIKZ = "render.tikz"
+
+
+def _used_after(fn: ast.AST, switch: ast.If, name: str) -> bool:
+    """Is `name` read after the switch (in a later statement of an enclosing block or a later loop iteration)?"""
+    inside = {id(n) for n in ast.walk(switch)}
+    for node in ast.walk(fn):
+        if isinstance(node, ast.Name) and node.id == name and isinstance(node.ctx, ast.Load) and id(node) not in inside:
+            if getattr(node, "lineno", 0) >= getattr(switch, "end_lineno", 0):
+                return True
+    return False
+
+
+def sigma_draw(prog: Program) -> RuleResult:
+    from ..geomsym import GeoEval, arm_values, is_geometric, sigma_value
+
+    res = RuleResult(
+        "SIGMA-DRAW",
+        "in render/tikz.py, wherever the two orientations compute points, rectangles or TikZ path operators by "
+        "straight-line code, the values left in the variables that are used afterwards are sigma-images of each "
+        "other (components exchanged, x<->y and w<->h of every base rectangle / point renamed, `|-`<->`-|`): the "
+        "horizontal drawing places every fork corner, leaf outline, leaf marker and loss marker where the "
+        "transposed vertical drawing places it. Points are reduced to polynomials through the method bodies of "
+        "utils/geometry.py, so helper points that differ only in a coordinate nobody reads do not matter.",
+    )
+    mod = prog.module(TIKZ)
+    compared = 0
+    skipped = []
+    for qual, fn in prog.defs(TIKZ).items():
+        if not isinstance(fn, FuncNode) or "." in qual:
+            continue
+        ge = GeoEval(prog, fn)
+        idx = 0
+        for node in ast.walk(fn):
+            if not (isinstance(node, ast.If) and is_orientation_test(node.test) is not None):
+                continue
+            idx += 1
+            kind = is_orientation_test(node.test)
+            vert, horiz = (node.body, node.orelse) if kind == "VERTICAL" else (node.orelse, node.body)
+            v = arm_values(ge, vert)
+            h = arm_values(ge, horiz)
+            base = f"{TIKZ}:{qual}/orientation-switch#{idx}"
+            if v is None or h is None:
+                skipped.append(base)
+                continue
+            live = sorted(n for n in set(v) | set(h) if _used_after(fn, node, n))
+            geo = [n for n in live if n in v and n in h and is_geometric(v[n]) and is_geometric(h[n])]
+            if not geo:
+                skipped.append(base)
+                continue
+            for name in geo:
+                compared += 1
+                construct = f"{base}/{name}"
+                image = sigma_value(h[name])
+                if image == v[name]:
+                    res.ok(construct, f"vertical {v[name]} = sigma(horizontal)")
+                else:
+                    res.fail(
+                        construct,
+                        f"`{name}`: the vertical arm gives {v[name]} but the transposed horizontal arm gives {image} "
+                        f"(horizontal arm: {h[name]}): in one orientation this element is drawn somewhere else",
+                        mod,
+                        node,
+                    )
+            for name in live:
+                if (name in v) != (name in h):
+                    res.fail(f"{base}/{name}", f"`{name}` is used afterwards but only one orientation assigns it", mod, node)
+    if compared < 6:
+        raise AnalysisError(f"SIGMA-DRAW: only {compared} geometric values compared in render/tikz.py (skipped: {skipped})")
+    res.ok(f"{TIKZ}:non-geometric-switches", f"{len(skipped)} orientation switches hold text styles or nested conditions and are not compared: {[s.split(':')[1] for s in skipped]}", nontrivial=False)
+    return res
+
+RULES = {"SIGMA-INVARIANCE": sigma_invariance, "SIGMA-CLOSURE": sigma_closure, "SIGMA-DRAW": sigma_draw}
